@@ -44,7 +44,7 @@ def naive_size(cfg: dict, res: refdec.Result) -> int | None:
     """Size of the one-entry-per-use, no-elision, explicit-id encoding of the same events and framing."""
     opt = dict(res.options)
     pol = refenc.Policy(split="sep", evict="lru", p_explicit_id=1.0, p_elide=0.0, p_redundant=1.0,
-                        frame_cut="fixed", frame_size=10 ** 9)
+                        frame_cut="fixed", frame_size=10 ** 9, p_implicit_empty_prefix=0.0)
     pr = refenc.Producer(random.Random(0), pol, opt)
     try:
         pr.encode_events(list(res.events))
@@ -52,8 +52,14 @@ def naive_size(cfg: dict, res: refdec.Result) -> int | None:
         return None
     rows = pr.rows
     nframes = max(1, len(res.rows_per_frame))
-    per = -(-len(rows) // nframes)
-    frames = [{"rows": rows[i:i + per], "metadata": []} for i in range(0, len(rows), per)] or [{"rows": [], "metadata": []}]
+    # exactly as many frames as the stream under audit has (rows spread evenly): rounding the rows-per-frame up would
+    # give the naive encoding FEWER frames, i.e. less framing overhead than the output it is compared with
+    q, r = divmod(len(rows), nframes)
+    frames, i = [], 0
+    for k in range(nframes):
+        n = q + (1 if k < r else 0)
+        frames.append({"rows": rows[i:i + n], "metadata": []})
+        i += n
     if not cfg["delimited"]:
         frames = [{"rows": rows, "metadata": []}]
     return len(wire.enc_stream(frames, cfg["delimited"]))
